@@ -112,11 +112,12 @@ let run_specmd args = match args with
   | [md] ->
     (match String.split_on_char 'z' md with
      | [h; z] ->
-       let bytes = bytes_of_hex (if h = "" then "-" else h) @ List.init (int_of_string z) (fun _ -> byte_tab.(0)) in
-       (match metadata_shape bytes with
+       let bytes = bytes_of_hex (if h = "" then "-" else h) in
+       let inp = md_input bytes (cn_of_string z) in
+       (match metadata_shape inp with
         | None -> "shape=none"
         | Some ((fp, mp), pad) ->
-          Printf.sprintf "shape=ok explicit=%b pad=%s ftyp=%s moov=%s tables=%s" (explicit_sizes bytes) (string_of_cn pad)
+          Printf.sprintf "shape=ok explicit=%b pad=%s ftyp=%s moov=%s tables=%s" (explicit_sizes inp) (string_of_cn pad)
             (hex_of_bytes fp) (hex_of_bytes mp) (show_tables (co_tables mp)))
      | _ -> "bad-md")
   | _ -> "bad-args"
